@@ -160,7 +160,8 @@ def addTag (tab : List TagCount) (k v : Nat) (ty : OType) : List TagCount :=
 
 /-- the strings the harness renders tag codes as; `Tags.Less` compares these -/
 def keyStr (k : Nat) : String := "k" ++ toString k
-def valStr (v : Nat) : String := "v" ++ toString v
+/-- value code 0 is the EMPTY tag value (`<tag k="k1" v=""/>`) -/
+def valStr (v : Nat) : String := if v = 0 then "" else "v" ++ toString v
 
 /-- `Tags.Less` -/
 def tagLess (a b : TagCount) : Bool :=
